@@ -3,7 +3,7 @@
 # patch, build, run the pinned test-suite (must still pass), run the seed's own demonstration (must fail
 # with the change and pass without it).  Writes seeded/<seed>/confirm.json.  Removes every worktree.
 cd /verif
-SEEDS=${@:-$(ls seeded)}
+SEEDS=${@:-$(ls seeded | grep "^C[0-9][0-9]-")}
 export PRI=/tmp/confirm-pristine
 git -C /repo worktree remove --force $PRI 2>/dev/null; rm -rf $PRI
 git -C /repo worktree add --detach $PRI HEAD >/dev/null 2>&1
